@@ -2741,6 +2741,14 @@ public:
       return;
     }
 
+    if (lhs == rhs) {
+      return;
+    }
+    // lhs is redefined: forget its current contents. Otherwise the
+    // ghost variable of a cell of lhs that rhs does not have keeps
+    // its old value and is found again by a later access.
+    forget_array(lhs);
+
     const array_state &as = lookup_array_state(rhs);
     if (!as.is_smashed()) {
       offset_map_t lhs_om;
